@@ -226,6 +226,14 @@ def run(chk):
                 sc = Interp(repo).call(mp, fpy, [z_], {'is_real': False})
                 if not dq.equal(X.lift(out[i_]), X.lift(sc)):
                     bad.append(f'element {i_} ({nm_}) is not what the scalar call returns for it: {dq.describe(X.lift(out[i_]), X.lift(sc))}')
+                # element-wise in floating point as well: the arithmetic of element i may use nothing of the other element (a scale taken from the whole array cancels over
+                # the reals, but a small element divided by the largest one underflows).  Atoms met only inside comparisons (a reduction that selects between methods that
+                # agree) do not count.
+                other = ('zb_re', 'zb_im') if i_ == 0 else ('za_re', 'za_im')
+                foreign = sorted(arith_support(X.lift(out[i_])) & set(other))
+                if foreign:
+                    if True:
+                        bad.append(f'element {i_} is computed with {", ".join(foreign)} of the other element (a quantity taken over the whole array enters its arithmetic: a small element next to a large one loses its digits)')
         chk.ob('R20.13', f'_sqrt_neg_python([z_a, z_b]) with z_a {ka}, z_b {kb}: each element of the result is the scalar result for that element', not bad, '; '.join(bad), mp.where(fpy),
                key=f'R20.13|{ka}|{kb}', method='whole-array interpretation (element-wise numpy semantics, reductions forked and merged as masks) + GF(p^2) PIT on sign regions')
     chk.floor('R20.13', 6)
@@ -585,6 +593,19 @@ def exponent_hazards(node, env):
         t = X.show(n)[:60]
         if t not in seen:
             seen.add(t); out.append((t, what, where))
+    return out
+
+
+def arith_support(n):
+    """names of the atoms an expression computes with: every atom reachable without passing through a comparison"""
+    out = set(); seen = set(); stack = [n]
+    while stack:
+        x = stack.pop()
+        if x.uid in seen: continue
+        seen.add(x.uid)
+        if x.op == 'cmp': continue
+        if x.op == 'atom': out.add(x.val[0])
+        stack.extend(x.args)
     return out
 
 
